@@ -24,7 +24,7 @@ func readnSpecs(read, wait string) []SiteSpec {
 }
 
 func propC20(c *Ctx) {
-	c.Explanation = "Request/response fidelity and message order over the stack's own TCP are end-to-end behaviour over runtime values and are NOT decided. Decided are the framing and routing tables whose agreement the round trip needs: (X1) Conn.SendData: the frame buffer is allocated afresh on every call (the stack keeps the slice handed to Write by reference until it is acknowledged and, on loopback, until it is read - reuse would overwrite frames in flight), first byte FIN|Text = 0x81, and the RFC 6455 length encoding - len <= 125: the length itself; 126..65535: marker 126 + 2 bytes big-endian; >= 65536: marker 127 + 8 bytes big-endian - with byte()/uint16() conversions lossless in their branches, payload copied at 2+ext and exactly 2+ext+len bytes written; no index/slice out of range. Conn.ReadData: exactly 2 header bytes first; only FIN text frames accepted (close closes the connection); 126 -> 2 more bytes big-endian, 127 -> 8 more, else the 7-bit value; mask bit -> 4 key bytes before the payload; payload buffer of exactly the decoded length read in full; unmasking applied exactly when the mask bit was set; the two tables use the same thresholds and byte order. maskBytes XORs byte i with key[i mod 4]. (X2) computeAcceptKey = base64-std(SHA-1(key || GUID)) with the RFC 6455 GUID, never reassigned; Upgrade answers 101 with that value for the Sec-WebSocket-Key header only after the method/version/connection/upgrade/key checks passed. (X3) ServeMux.dispatch calls a handler only when the request URI is a key of the route table, and then the one stored under that key with the connection's request and response; otherwise status 400 and no handler; HandleFunc stores exactly (pattern -> handler) under the mux lock. (X4) both Readn copies: bytes are appended in arrival order, len(p) bytes are copied only when available and exactly len(p) are consumed. NOT decided: HTTP parser/serialiser round trip, delivery and ordering through TCP, partial writes (ServerSocket.Write ignores the endpoint's result - observation)."
+	c.Explanation = "Request/response fidelity and message order over the stack's own TCP are end-to-end behaviour over runtime values and are NOT decided. Decided are the framing and routing tables whose agreement the round trip needs: (X1) Conn.SendData: the frame buffer is allocated afresh on every call (the stack keeps the slice handed to Write by reference until it is acknowledged and, on loopback, until it is read - reuse would overwrite frames in flight), first byte FIN|Text = 0x81, and the RFC 6455 length encoding - len <= 125: the length itself; 126..65535: marker 126 + 2 bytes big-endian; >= 65536: marker 127 + 8 bytes big-endian - with byte()/uint16() conversions lossless in their branches, payload copied at 2+ext and exactly 2+ext+len bytes written; no index/slice out of range. Conn.ReadData: exactly 2 header bytes first; only FIN text frames accepted (close closes the connection); 126 -> 2 more bytes big-endian, 127 -> 8 more, else the 7-bit value; mask bit -> 4 key bytes before the payload; payload buffer of exactly the decoded length read in full; unmasking applied exactly when the mask bit was set; the two tables use the same thresholds and byte order. maskBytes XORs byte i with key[i mod 4]. (X2) computeAcceptKey = base64-std(SHA-1(key || GUID)) with the RFC 6455 GUID, never reassigned; Upgrade answers 101 with that value for the Sec-WebSocket-Key header only after the method/version/connection/upgrade/key checks passed. (X3) ServeMux.dispatch calls a handler only when the request URI is a key of the route table, and then the one stored under that key with the connection's request and response; otherwise status 400 and no handler; HandleFunc stores exactly (pattern -> handler) under the mux lock. (X4) both Readn copies: bytes are appended in arrival order, len(p) bytes are copied only when available and exactly len(p) are consumed. (X5) the HTTP parser and the two serialisers use the same syntax: match_until splits at the first occurrence of its delimiter; the parser splits the request line at two spaces and CRLF, each header at the first ': ' and the next CRLF (the value is not split again), stores (name, value) verbatim, keeps the remainder as the body and calls no other tokeniser; the client request and the server response are built as line, 'name: value' CRLF per header, blank line, body. NOT decided: that parse(serialise(m)) = m for every message (names/values that themselves contain the delimiters), delivery and ordering through TCP, partial writes (ServerSocket.Write ignores the endpoint's result - observation)."
 	cn := "(*websocket.Conn)."
 	an := NewAbsint(c.P)
 
@@ -208,6 +208,45 @@ func propC20(c *Ctx) {
 		c.CheckSites(x4, fn, specs)
 		c.boundsObligations(x4, an, fn)
 	}
+	x5 := c.Rule("X5", "K9 writer/reader agreement + K7 site tables", "HTTP message syntax: serialisers and parser use the same delimiters", 12)
+	if fn := c.Fn(x5, "http.match_until"); fn != nil {
+		idx := "strings.Index($0, $1)"
+		c.CheckSites(x5, fn, []SiteSpec{
+			{Kind: "return", Args: []string{"\"\"", "\"\""}, Guards: []string{"(-1 == " + idx + ")"}, Exact: true, N: 1, Why: "delimiter absent: nothing matched, nothing left"},
+			{Kind: "return", Args: []string{"$0[:" + idx + "]", "$0[(builtin:len($1) + " + idx + "):]"}, Guards: []string{"!(-1 == " + idx + ")"}, Exact: true, N: 1, Why: "text before the FIRST occurrence of the delimiter, and the rest after the whole delimiter"},
+		})
+	}
+	if fn := c.Fn(x5, "(*http.Request).parse"); fn != nil {
+		c.CheckSites(x5, fn, []SiteSpec{
+			{Kind: "call", Target: "http.match_until", Args: []string{"*", "\" \""}, N: 2, Why: "method and request target end at a space"},
+			{Kind: "call", Target: "http.match_until", Args: []string{"*", "\"\\r\\n\""}, N: 2, Why: "the request line and every header value end at CRLF"},
+			{Kind: "call", Target: "http.match_until", Args: []string{"*", "\": \""}, N: 1, Why: "a header name ends at the first colon-space"},
+			{Kind: "call", Target: "(*http.http_headers).http_headers_add", Args: []string{"$0.headers", "http.match_until(loop, \": \")#0", "http.match_until(phi{http.match_until(loop, \": \")#1 | loop}, \"\\r\\n\")#0"}, N: 1, Why: "header = (text before the first ': ' of the remaining input, everything from there to the next CRLF) - the value is not split again"},
+		})
+		// the parser calls nothing else that could re-interpret the text
+		allowed := map[string]bool{"http.match_until": true, "http.get_method": true, "(*http.Connection).set_status_code": true, "strings.EqualFold": true, "(*http.http_headers).http_headers_add": true, "log.Println": true, "log.Printf": true}
+		for _, ci := range c.Calls(fn, func(string) bool { return true }, false) {
+			n := CalleeName(ci)
+			c.Check(allowed[n], x5, FuncName(fn)+"/callee:"+n, c.pos(ci), "reviewed helper", "the request parser now calls "+n+", which is not one of its reviewed helpers: the text is tokenised some other way")
+		}
+		var body []string
+		for _, st := range Sites(fn) {
+			if st.Kind == "store" && st.Target == "http.Request.body" {
+				body = append(body, st.Args[1])
+			}
+		}
+		c.Check(len(body) == 1 && strings.Contains(body[0], "match_until") && !strings.Contains(body[0], "#0"), x5, FuncName(fn)+"/body-is-the-rest", c.P.Pos(fn.Pos()), "body = what remains after the header loop", "the body is no longer the unparsed remainder")
+	}
+	if fn := c.Fn(x5, "(*http.Request).send"); fn != nil {
+		c.CheckSites(x5, fn, []SiteSpec{{Kind: "return", Args: []string{"((phi{(((\"\" + ($0.method_raw@u + \" \")) + ($0.uri + \" \")) + \"HTTP/1.1\\r\\n\") | ((((loop + next(range($0.headers.ptr))#1) + \": \") + next(range($0.headers.ptr))#2) + \"\\r\\n\")} + \"\\r\\n\") + $0.body)"}, Guards: []string{"!next(range($0.headers.ptr))#0"}, Exact: true, N: 1, Why: "request = method SP target SP HTTP/1.1 CRLF, then name ': ' value CRLF per header, blank line, body - the delimiters the parser splits on"}})
+	}
+	if fn := c.Fn(x5, "(*http.Response).build_and_send_response"); fn != nil {
+		c.CheckSitesPresent(x5, fn, []SiteSpec{{Kind: "call", Target: "(*http.Response).send_all", Args: []string{"$0", "((phi{(((((\"\" + ($0.con.request.version_raw + \" \")) + strconv.Itoa($0.con.status_code)) + \" \") + http.StatusText($0.con.status_code)) + \"\\r\\n\") | ((((loop + next(range($0.headers.ptr))#1) + \": \") + next(range($0.headers.ptr))#2) + \"\\r\\n\")} + \"\\r\\n\") + $0.entity_body)"}, N: 1, Why: "response = version SP status SP reason CRLF, headers as name ': ' value CRLF, blank line, the handler's body"}})
+	}
+	if fn := c.Fn(x5, "(*http.http_headers).http_headers_add"); fn != nil {
+		c.CheckSitesPresent(x5, fn, []SiteSpec{{Kind: "mapupdate", Args: []string{"$0.ptr", "$1", "$2"}, N: 1, Why: "stored under the exact name with the exact value"}})
+	}
+
 }
 
 // boundsObligations: every index/slice/fixed-width access in fn is proved in
